@@ -277,6 +277,60 @@ def pick(seq, sel: int):
     return seq[sel % len(seq)]
 
 
+def donor_pool(cat: str) -> tuple:
+    """The base (non-harvested) donor pool of a category, for enumerations."""
+
+    if cat == 'stmt':
+        return gen.STMT_DONORS
+    if cat == 'expr':
+        return gen.EXPR_DONORS
+    if cat == 'expr_store':
+        return STORE_DONORS
+
+    return gen.OTHER_DONORS.get(cat, ())
+
+
+def single_edit_grid(programs, tier, shard, nshards, seed, n_expr=6, thin=1):
+    """Deterministic grid of one-step cases: every node target of every program x {replace by each of a few donors of its category (plain,
+    parenthesised, multi-line, compound) in src / fst form with pars auto / True, remove}. Yields case dicts for checks built on apply_step()."""
+
+    import ast as _ast
+
+    want_expr = ('x', '(a)', '(a,\n b)', 'a + b', 'f(a,\n  b)', 'a if b else c', 'lambda: x', '*a', 'x := 1', '[i for i in j]')[:n_expr]
+    want_store = ('x', '(x)', 'a.b', '(a, b)', 'a[b]')
+    k = 0
+
+    for pi, src in enumerate(programs):
+        try:
+            targets = node_targets(_ast.parse(src))
+        except SyntaxError:
+            continue
+
+        for ti, (node, parent, field, idx) in enumerate(targets):
+            cat = category(node)
+            pool = donor_pool(cat)
+            want = want_expr if cat == 'expr' else want_store if cat == 'expr_store' else pool[:3]
+            picks = [pool.index(w) for w in want if w in pool]
+            variants = [('remove', None, 'src', 'auto')]
+
+            for j in picks:
+                for form, pars in (('src', 'auto'), ('fst', True), ('fst', 'auto'), ('src', True)):
+                    variants.append(('replace', j, form, pars))
+
+            for op, j, form, pars in variants:
+                k += 1
+
+                if k % nshards != shard:
+                    continue
+
+                if thin > 1 and (k * 2654435761 + seed * 40503) % thin:
+                    continue
+
+                step = {'tsel': ti, 'form': form, 'dsel': 7 * (j or 0), 'opts': {} if pars == 'auto' else {'pars': True}, 'op': op, 'anycat': False, 'layout': []}
+
+                yield {'src': src, 'steps': [step], 'grid': True}
+
+
 def donor_source(cat: str, step: dict) -> str:
     dsel = step['dsel']
 
